@@ -264,3 +264,36 @@ def run_c01_cases(name, items, timeout=900):
         for k, (a, a0, b, c) in enumerate(ms):
             results[off + k] = (int(a), [int(x) for x in re.findall(r'-?\d+', b)], [int(x) for x in re.findall(r'-?\d+', c)], int(a0))
     return results
+
+
+# ------------------------------------------------------------------------------------------------ replay
+def gen_replay(path):
+    """re-run the recorded input (specification XML + class + object / bytes) on the current /repo working tree"""
+    r = json.load(open(path))
+    inp = r.get('input', {})
+    if 'xml' not in inp:
+        print("replay:", json.dumps(r.get('broken', r.get('what')))[:1500])
+        return 1
+    S = Scratch()
+    runner = GenRunner(S, workers=1)
+    jobs = []
+    if 'value' in inp and 'cls' in inp:
+        jobs.append(dict(op='ser', cls=inp['cls'], value=inp['value'], san=bool(inp.get('san', False)), then_deser=True, mutants=0, fail_at=inp.get('fail_at')))
+    if 'data' in inp and 'cls' in inp:
+        jobs.append(dict(op='deser', cls=inp['cls'], data=inp['data'], chunked=bool(inp.get('chunked', False)), fail_at=inp.get('fail_at')))
+    res = runner.run([dict(id=0, files=inp['xml'], jobs=jobs)])[0]
+    print("generator:", "accepted" if res.get('accepted') else f"rejected ({res.get('error')})", res.get('import_error', ''))
+    still = False
+    for job, out in zip(jobs, res.get('results', [])):
+        show = {k: v for k, v in out.items() if k != 'deser'}
+        print(job['op'], job['cls'], '->', json.dumps(show)[:1200])
+        for d in out.get('deser', [])[:1]:
+            print("  then deserialize ->", json.dumps(d)[:1200])
+        obs = r.get('observed')
+        if obs and all(out.get(k) == obs.get(k) for k in ('res', 'bytes', 'mode', 'pos') if k in obs):
+            still = True
+    if r.get('observed') is None:
+        print("recorded:", r.get('what', '')[:600])
+        return 1
+    print("replay:", "the recorded behaviour is reproduced" if still else "the recorded behaviour is NOT reproduced on the current tree")
+    return 1 if still else 0
